@@ -429,8 +429,13 @@ def tbExitTrap (s : TB) : TB :=
   | some ts =>
     match ts.action with
     | .command c =>
-      tbHook { s with out := tbLine s.exit c :: s.out,
-                      st := { s.st with traps := (tbBody c s.exit s.st.traps).2 } }
+      -- the EXIT trap is not a signal trap: signal traps run inside it, after its own `kill`
+      -- (`$?` = 0 there); `run_trap` then restores `$?`
+      let s1 : TB := { s with out := tbLine s.exit c :: s.out }
+      if c / 1000 = 1 then
+        let s2 := tbHook { s1 with st := { s1.st with traps := (tbBody c s.exit s.st.traps).2 }, exit := 0 }
+        { s2 with exit := s.exit }
+      else s1
     | _ => s
   | none => s
 
@@ -505,13 +510,16 @@ def tbStmt (k : Nat) (s : TB) (ws : List String) : Option TB :=
       | .caught => (tbSend acc.1 sig, acc.2 ++ [sig])
       | _ => (tbSend acc.1 sig, acc.2)) (s0, [])
     if s1.ended.isSome then pure s1 else
-    let s2 : TB := { s1 with st := deliver s1.st SIGCHLD }
-    let r := waitTrapLoop tbBody (caught ++ [SIGCHLD]) s2.st.traps s2.exit
+    -- the child is still running when the signals it sent wake the parent
+    let r := waitTrapLoop tbBody caught s1.st.traps s1.exit
     match r.2 with
     | some (sig, c, _, _) =>
-      pure { s2 with st := { s2.st with traps := r.1 }, out := tbLine s2.exit c :: s2.out,
+      pure { s1 with st := { s1.st with traps := r.1 }, out := tbLine s1.exit c :: s1.out,
                      exit := 384 + sig }
-    | none => pure { s2 with st := { s2.st with traps := r.1 }, exit := 3 }
+    | none =>
+      -- nothing interrupted the wait: the child ends, its SIGCHLD is collected, its status returned
+      let s2 : TB := { s1 with st := deliver { s1.st with traps := r.1 } SIGCHLD }
+      pure { s2 with exit := 3 }
   | _ => tbSimple k false s ws
 
 def tbLineRun (line : String) : String :=
@@ -531,7 +539,13 @@ def tbLineRun (line : String) : String :=
       match tbStmt k s ws with
       | none => none
       | some s' => go (tbHook s') rest (k + 1)
-  match go { st := State.init init } parts 0 with
+  -- `W` leaves a child running when a trap interrupts the wait: it must be the last statement that
+  -- creates a child, and SIGCHLD must not be named in such a case
+  let isChild := fun (ws : List String) => ws.head? ∈ [some "sub", some "cs", some "bg", some "W"]
+  let afterW := (parts.dropWhile fun ws => ws.head? ≠ some "W").drop 1
+  let wOK := !(parts.any fun ws => ws.head? = some "W")
+    || (!(afterW.any isChild) && !(parts.any fun ws => ws.contains "CHLD" || ws.contains "102"))
+  match (if wOK then go { st := State.init init } parts 0 else none) with
   | none => "bad-case\t-"
   | some s =>
     let s := tbExitTrap s
